@@ -547,7 +547,10 @@ pub fn oracle_c10(cfg: &EwCfg, tr: &EwTrace) -> Vec<Violation> {
         for o in tr.obs.iter() {
             if !o.s_stepped { continue; }
             let r = o.round; let t = o.t_ms;
-            for c in tr.calls.iter().filter(|c| c.round == r) { if matches!(c.act, Act::SDrop(k) | Act::SDisconnect(k) | Act::SDisconnectNow(k) if k == i) { conn = None; } }
+            // drop and disconnect_now end the connection at once; a flushing disconnect() leaves it established (and subject to the active
+            // time-out) until the disconnect request itself is transmitted
+            for c in tr.calls.iter().filter(|c| c.round == r) { if matches!(c.act, Act::SDrop(k) | Act::SDisconnectNow(k) if k == i) { conn = None; } }
+            if tr.wire.iter().any(|d| !d.injected && d.src == saddr() && d.dst == caddr(i) && d.sent_round == r && matches!(d.frame, Some(Frame::DisconnectFrame(_)))) { conn = None; }
             let heard = tr.delivered.iter().any(|x| x.round == r && { let d = &tr.wire[x.dg]; d.src == caddr(i) && d.dst == saddr() && is_conn_frame(&d.frame) });
             let was_conn = conn.is_some();
             let mut timeout_now = false; let mut ended = false;
